@@ -1068,7 +1068,10 @@ func (a *align) AddGaps(lenprop float64, prop float64) {
 
 func (a *align) Append(al Alignment) (err error) {
 	al.IterateAll(func(name string, sequence []uint8, comment string) bool {
-		err = a.AddSequenceChar(name, sequence, comment)
+		// The sequences are copied: al and a stay independent of each other
+		tmpseq := make([]uint8, len(sequence))
+		copy(tmpseq, sequence)
+		err = a.AddSequenceChar(name, tmpseq, comment)
 		return err != nil
 
 	})
